@@ -375,6 +375,151 @@ theorem read_write_doc_generated (d : List Quad)
   rw [(writeDocT_eq d).2 hg]
   exact read_write_doc_nt d (fun q h => ⟨hok q h, hg q h⟩)
 
+/-! ## UCHAR: the reader's other escape branch, and the pending pure-ASCII mode -/
+
+theorem hexVal_digit : ∀ d : Fin 16, NT.hexVal (hexDigitU d.val) = some d.val := by decide
+
+theorem hexVal_digit' (d : Nat) (h : d < 16) : NT.hexVal (hexDigitU d) = some d := hexVal_digit ⟨d, h⟩
+
+theorem hexNum_hex4 (n : Nat) (h : n < 65536) : hexNum (hex4 n) = some n := by
+  simp only [hexNum, hex4, List.foldl_cons, List.foldl_nil, Option.bind_some, Option.map_some,
+    hexVal_digit' _ (Nat.mod_lt _ (by decide : 16 > 0))]
+  congr 1; omega
+
+theorem hexNum_hex8 (n : Nat) (h : n < 4294967296) : hexNum (hex8 n) = some n := by
+  simp only [hexNum, hex8, hex4, List.cons_append, List.nil_append, List.foldl_cons, List.foldl_nil, Option.bind_some, Option.map_some,
+    hexVal_digit' _ (Nat.mod_lt _ (by decide : 16 > 0))]
+  congr 1; omega
+
+theorem ucharOf_hex4 (c : Char) (h : c.toNat < 65536) : ucharOf (hex4 c.toNat) = some c := by
+  have hv : c.toNat.isValidChar := c.valid
+  simp [ucharOf, hexNum_hex4 _ h, hv, Char.ofNat_toNat]
+
+theorem ucharOf_hex8 (c : Char) : ucharOf (hex8 c.toNat) = some c := by
+  have hv : c.toNat.isValidChar := c.valid
+  have hlt : c.toNat < 4294967296 := by
+    rcases hv with h | h <;> omega
+  simp [ucharOf, hexNum_hex8 _ hlt, hv, Char.ofNat_toNat]
+
+/-- the reader decodes `\uXXXX` -/
+theorem read_uchar4 (c : Char) (h : c.toNat < 65536) (r : Str) :
+    readStrBody ('\\' :: 'u' :: (hex4 c.toNat ++ r)) = pushFst c (readStrBody r) := by
+  have e := ucharOf_hex4 c h
+  simp only [hex4] at e
+  rw [readStrBody.eq_def]
+  simp [hex4, e]
+
+/-- … and `\UXXXXXXXX`, for every scalar value -/
+theorem read_uchar8 (c : Char) (r : Str) :
+    readStrBody ('\\' :: 'U' :: (hex8 c.toNat ++ r)) = pushFst c (readStrBody r) := by
+  have e := ucharOf_hex8 c
+  rw [readStrBody.eq_def]
+  simp [hex8, hex4] at e ⊢
+  rw [e]
+
+theorem read_quotedAscii (s r : Str) : readStrBody (quotedAscii s ++ '"' :: r) = some (s, r) := by
+  induction s with
+  | nil => simp [quotedAscii, readStrBody_quote]
+  | cons c s ih =>
+    have hc : quotedAscii (c :: s) = escAscii c ++ quotedAscii s := by simp [quotedAscii]
+    rw [hc, List.append_assoc]
+    unfold escAscii
+    split
+    · rcases escChar_cases c with ⟨h1, h2, h3, h4, e⟩ | ⟨x, e, hx, hu, hU⟩
+      · rw [e]; simp [readStrBody_plain c _ h1 h2 h3 h4, ih, pushFst]
+      · rw [e]; simp [readStrBody_echar x c _ hx hu hU, ih, pushFst]
+    · split
+      · rw [List.cons_append, List.cons_append, read_uchar4 c (by assumption), ih]; rfl
+      · rw [List.cons_append, List.cons_append, read_uchar8 c, ih]; rfl
+
+theorem unescape_quotedAscii (s : Str) : unescape (quotedAscii s) = some s := by
+  simp [unescape, read_quotedAscii]
+
+theorem hexDigitU_ascii : ∀ d : Fin 16, (hexDigitU d.val).toNat < 128 := by decide
+
+theorem escChar_ascii (c : Char) (h : c.toNat < 128) : ∀ x ∈ escChar c, x.toNat < 128 := by
+  intro x hx
+  by_cases hc : isCut c = true
+  · have e := escArm_of_cut c hc
+    exact (SophiaProofs.NTB.arms_ascii c (escChar c) (mem_of_lookup c (escChar c) Gen.ntEscapeArms e)).2 x hx
+  · have : escChar c = [c] := by simp [escChar, hc]
+    rw [this] at hx; simp at hx; subst hx; exact h
+
+theorem quotedAscii_is_ascii (s : Str) : ∀ x ∈ quotedAscii s, x.toNat < 128 := by
+  intro x hx
+  simp only [quotedAscii, List.mem_flatMap] at hx
+  obtain ⟨c, _, hxc⟩ := hx
+  unfold escAscii at hxc
+  have hd : ∀ n, (hexDigitU (n % 16)).toNat < 128 := fun n => hexDigitU_ascii ⟨n % 16, Nat.mod_lt _ (by decide)⟩
+  split at hxc
+  · exact escChar_ascii c (by assumption) x hxc
+  · split at hxc
+    · simp only [hex4, List.mem_cons, List.not_mem_nil, or_false] at hxc
+      rcases hxc with rfl | rfl | rfl | rfl | rfl | rfl <;> first | decide | exact hd _
+    · simp only [hex8, hex4, List.cons_append, List.nil_append, List.mem_cons, List.not_mem_nil, or_false] at hxc
+      rcases hxc with rfl | rfl | rfl | rfl | rfl | rfl | rfl | rfl | rfl | rfl <;> first | decide | exact hd _
+
+theorem read_iri_uchar4 (c : Char) (h : c.toNat < 65536) (r : Str) :
+    readIriBody ('\\' :: 'u' :: (hex4 c.toNat ++ r)) = pushFst c (readIriBody r) := by
+  have e := ucharOf_hex4 c h
+  simp only [hex4] at e
+  rw [readIriBody.eq_def]
+  simp [hex4, e]
+
+theorem read_iri_uchar8 (c : Char) (r : Str) :
+    readIriBody ('\\' :: 'U' :: (hex8 c.toNat ++ r)) = pushFst c (readIriBody r) := by
+  have e := ucharOf_hex8 c
+  rw [readIriBody.eq_def]
+  simp [hex8, hex4] at e ⊢
+  rw [e]
+
+example : unescape (quotedAscii "é😀\n\"".toList) = some "é😀\n\"".toList := unescape_quotedAscii _
+
+-- the classic bug (a UTF-16 surrogate pair instead of the scalar value) is rejected by the reader
+example : unescape "\\uD83D\\uDE00".toList = none := by decide +kernel
+example : unescape "\\u00E9\\U0001F600".toList = some "é😀".toList := by decide +kernel
+
+/-! ## set containers and failing sinks (the other entry points the driver models) -/
+
+/-- the quad a single written line denotes -/
+def lineQuad (line : Str) : Quad := ((readDoc true line).getD []).headD default
+
+theorem lineQuad_write (q : Quad) (hq : quadOk q = true) : lineQuad (writeQuad q) = q := by
+  simp [lineQuad, read_write_quad q hq]
+
+/-- **comparing a set container's output as a sorted sequence of lines is sound**: if the sorted
+lines of two well-formed datasets coincide (whatever the order `le`), the datasets are
+permutations of each other — no quad lost, added or merged by a `HashSet` source either -/
+theorem sorted_lines_sound (le : Str → Str → Bool) (d d' : List Quad)
+    (hd : ∀ q ∈ d, quadOk q = true) (hd' : ∀ q ∈ d', quadOk q = true)
+    (h : (d.map (writeQuadT true)).mergeSort le = (d'.map (writeQuadT true)).mergeSort le) : d.Perm d' := by
+  have hw : writeQuadT true = writeQuad := funext fun q => (writeQuadT_eq q).1
+  rw [hw] at h
+  have p1 : (d.map writeQuad).Perm (d'.map writeQuad) :=
+    ((List.mergeSort_perm _ le).symm.trans (h ▸ List.Perm.refl _)).trans (List.mergeSort_perm _ le)
+  have p2 := p1.map lineQuad
+  have e : ∀ l : List Quad, (∀ q ∈ l, quadOk q = true) → (l.map writeQuad).map lineQuad = l := by
+    intro l hl
+    rw [List.map_map]
+    conv => rhs; rw [← List.map_id l]
+    exact List.map_congr_left (fun q hq => lineQuad_write q (hl q hq))
+  rw [e d hd, e d' hd'] at p2
+  exact p2
+
+/-- **a sink with room for n bytes**: however the serializer splits its output into `write_all`
+calls, the serialisation succeeds iff the whole output fits (so `Err` ⇔ longer than n bytes) -/
+theorem sink_ok_iff (n : Nat) (chunks : List Bytes) :
+    (sinkRun n chunks).isSome = true ↔ chunks.flatten.length ≤ n := by
+  induction chunks generalizing n with
+  | nil => simp [sinkRun]
+  | cons c cs ih =>
+    simp only [sinkRun, List.flatten_cons, List.length_append]
+    split
+    · rw [ih]; omega
+    · simp; omega
+
+example : (sinkRun 5 [[1, 2], [], [3, 4, 5]]).isSome = true ∧ (sinkRun 4 [[1, 2], [], [3, 4, 5]]).isSome = false := by decide
+
 /-! ## the hypotheses: discharged where they are internal, shown necessary where they are guards -/
 
 /-- **the fuel hypothesis of `read_write_term` is internal**: the fuel the line reader actually
